@@ -76,6 +76,8 @@ type H struct {
 	nReload    int
 	nHeapNodes int
 	cacheSize  int
+	mid        int // percent: mid-block views of the latest version
+	nMid       int
 }
 
 func hx(b []byte) string { return gen.Hex(b) }
@@ -262,6 +264,16 @@ func (h *H) dumpHeap() {
 				vs[h.saved[h.r2.Intn(n)]] = true
 			}
 		}
+		// the version every held view claims to be: its root record is dumped next to the handle
+		isSaved := map[int64]bool{}
+		for _, v := range h.saved {
+			isSaved[v] = true
+		}
+		for _, v := range h.views {
+			if isSaved[v.ver] {
+				vs[v.ver] = true
+			}
+		}
 		order := make([]int64, 0, len(vs))
 		for v := range vs {
 			order = append(order, v)
@@ -316,6 +328,7 @@ func (h *H) doSet(k, v []byte) {
 	h.block = append(h.block, write{k: k, v: v})
 	h.t.Line("set", true, "set %s %s => %s", keyHex(k), hx(v), res)
 	h.dumpHeap()
+	h.midBlock()
 }
 
 func (h *H) doRemove(k []byte) {
@@ -327,6 +340,7 @@ func (h *H) doRemove(k []byte) {
 	h.block = append(h.block, write{rm: true, k: k})
 	h.t.Line("rm", true, "rm %s => %s", keyHex(k), res)
 	h.dumpHeap()
+	h.midBlock()
 }
 
 func (h *H) doSave() {
@@ -426,7 +440,13 @@ func (h *H) doOpen() {
 	default:
 		v = h.saved[h.r.Intn(len(h.saved))]
 	}
+	h.openAt(kind, v)
+}
+
+// openAt opens a view of version v (kind I = GetImmutable, Z = LazyLoadVersion) and keeps the handle.
+func (h *H) openAt(kind string, v int64) *view {
 	var it *iavl.ImmutableTree
+	var nv *view
 	res := try(func() string {
 		if kind == "I" {
 			t, err := h.tree.GetImmutable(v)
@@ -447,10 +467,43 @@ func (h *H) doOpen() {
 		return fmt.Sprintf("x%d", h.nextV)
 	})
 	if it != nil && strings.HasPrefix(res, "x") {
-		h.views = append(h.views, &view{id: h.nextV, it: it, ver: v})
+		nv = &view{id: h.nextV, it: it, ver: it.Version()}
+		h.views = append(h.views, nv)
 		h.nextV++
 	}
 	h.t.Line("open", it != nil, "open %s %d => %s", kind, v, res)
+	h.dumpHeap()
+	return nv
+}
+
+// midBlock: with probability mid% open a view of the LATEST committed version right after a write
+// (the working tree is dirty), read it out completely and keep it. This is the situation of a
+// historical query / PrevCtx of the last committed height issued in the middle of a block.
+func (h *H) midBlock() {
+	if h.mid == 0 || h.tree.Version() == 0 || !h.r.Chance(h.mid, 100) {
+		return
+	}
+	for len(h.views) >= 8 {
+		h.doDrop()
+	}
+	kind, v := "Z", h.tree.Version()
+	switch h.r.Intn(6) {
+	case 0:
+		kind = "I"
+	case 1:
+		v = 0 // LazyLoadVersion(0) = latest
+	}
+	nv := h.openAt(kind, v)
+	if nv == nil {
+		return
+	}
+	h.nMid++
+	res := try(func() string {
+		var ks, vs [][]byte
+		nv.it.IterateRange(nil, nil, true, func(k, v []byte) bool { ks = append(ks, k); vs = append(vs, v); return false })
+		return renderKVs(ks, vs)
+	})
+	h.t.Line("iter", true, "iter x%d ~ ~ 1 0 => %s", nv.id, res)
 	h.dumpHeap()
 }
 
@@ -548,6 +601,7 @@ func main() {
 	out := flag.String("out", "c09b.trace", "")
 	nkeys := flag.Int("keys", 16, "key space")
 	cache := flag.Int("cache", 10000, "iavl node cache size (10000 = the store's default)")
+	mid := flag.Int("mid", 0, "percent of writes followed by a view of the latest committed version that is read out at once (mid-block historical read)")
 	flag.Parse()
 
 	tree, err := iavl.NewMutableTree(dbm.NewMemDB(), *cache)
@@ -556,7 +610,7 @@ func main() {
 	}
 	h := &H{r: gen.New(*seed), r2: gen.New(*seed*31 + 7), t: gen.NewTrace(*out), tree: tree, present: map[string]bool{},
 		blocks: map[int64][]write{}, objID: map[interface{}]int{}, hashID: map[string]int{},
-		lastN: map[int]string{}, lastD: map[int]string{}, lastE: map[int]string{}, blockOK: true, cacheSize: *cache}
+		lastN: map[int]string{}, lastD: map[int]string{}, lastE: map[int]string{}, blockOK: true, cacheSize: *cache, mid: *mid}
 	for i := 0; i < *nkeys; i++ {
 		k := []byte{byte(i >> 2), byte(i<<6) | byte(i%3)}
 		if i%5 == 3 {
@@ -590,6 +644,10 @@ func main() {
 		wSet, wRm := 30, 22
 		if (i/phaseLen)%2 == 1 {
 			wSet, wRm = 18, 34 // shrinking phases: removals below saved versions trigger the double rotations
+		}
+		if len(h.keys) <= 4 {
+			// tiny key space: keep the tree at 1-3 keys most of the time (a leaf directly under the root)
+			wSet, wRm = 36, 18
 		}
 		x := h.r.Intn(100)
 		switch {
@@ -636,5 +694,5 @@ func main() {
 		}
 	}
 	h.t.Close(map[string]interface{}{"versions": len(h.saved), "idempotent_saves": h.nIdem, "reloads": h.nReload,
-		"heap_nodes_walked": h.nHeapNodes, "objects": len(h.objID), "hashes": len(h.hashID), "cache": *cache})
+		"heap_nodes_walked": h.nHeapNodes, "mid_block_views": h.nMid, "objects": len(h.objID), "hashes": len(h.hashID), "cache": *cache})
 }
